@@ -59,7 +59,11 @@ type verifStorage struct {
 	release                       *sync.Cond
 	failWrite                     bool
 	failOpen                      bool
+	failOpenName                  string // "" = every Open fails, else only the Open of that file
+	gateWriteDone                 bool   // WriteAt is held after it has stored the bytes (the writer goroutine is descheduled before it reports)
+	blockedWriteDone              int
 	truth                         func(name string, off int64, p []byte) bool
+	lastWrite                     func(name string, off int64, n int) bool
 }
 
 func newVerifStorage() *verifStorage {
@@ -80,7 +84,7 @@ func (s *verifStorage) Open(name string, size int64) (storage.File, bool, error)
 		s.release.Wait()
 		s.blockedOpen--
 	}
-	if s.failOpen {
+	if s.failOpen && (s.failOpenName == "" || s.failOpenName == name) {
 		s.log = append(s.log, "openfail:"+name)
 		return nil, false, errors.New("verif: open failed")
 	}
@@ -160,6 +164,11 @@ func (f *verifFile) WriteAt(p []byte, off int64) (int, error) {
 		verdict = "ok"
 	}
 	f.s.log = append(f.s.log, fmt.Sprintf("write:%s:%d:%d:%s", f.name, off, len(p), verdict))
+	for f.s.gateWriteDone && (f.s.lastWrite == nil || f.s.lastWrite(f.name, off, len(p))) {
+		f.s.blockedWriteDone++
+		f.s.release.Wait()
+		f.s.blockedWriteDone--
+	}
 	return len(p), nil
 }
 
@@ -682,6 +691,31 @@ func VerifNewWorld(op string) (*VerifWorld, string) {
 		}
 		return false
 	}
+	// lastWrite: the write [off, off+n) into the file is the last storage call of its piece (the end of the
+	// piece's last non-empty data section)
+	w.sto.lastWrite = func(name string, off int64, n int) bool {
+		pos := 0
+		for i, l := range w.flens {
+			if w.fileName(i) == name && !w.fpads[i] {
+				end := pos + int(off) + n // global offset of the end of the write
+				if end == pos+l {
+					// the file ends here: last call unless data bytes of the same piece follow in a later file
+					pieceEnd := (end + w.pl - 1) / w.pl * w.pl
+					q := pos + l
+					for j := i + 1; j < len(w.flens) && q < pieceEnd; j++ {
+						if !w.fpads[j] && w.flens[j] > 0 {
+							return false
+						}
+						q += w.flens[j]
+					}
+					return true
+				}
+				return end%w.pl == 0
+			}
+			pos += l
+		}
+		return true
+	}
 	info := map[string]interface{}{"name": "t", "piece length": w.pl, "pieces": pieces}
 	w.multi = m["multi"] == "1"
 	if len(w.flens) == 1 && !w.fpads[0] && !w.multi {
@@ -879,7 +913,7 @@ func verifErrClass(err error) string {
 func (w *VerifWorld) Close() {
 	if w.sess != nil && !w.dead {
 		w.sto.mu.Lock()
-		w.sto.gateOpen, w.sto.gateWrite, w.sto.gateRead = false, false, false
+		w.sto.gateOpen, w.sto.gateWrite, w.sto.gateRead, w.sto.gateWriteDone = false, false, false, false
 		w.sto.release.Broadcast()
 		w.sto.mu.Unlock()
 		done := make(chan struct{})
@@ -952,7 +986,7 @@ func (w *VerifWorld) waitGatesPassed() {
 	for time.Now().Before(deadline) {
 		w.sto.mu.Lock()
 		pending := (!w.sto.gateOpen && w.sto.blockedOpen > 0) || (!w.sto.gateWrite && w.sto.blockedWrite > 0) ||
-			(!w.sto.gateRead && w.sto.blockedRead > 0)
+			(!w.sto.gateRead && w.sto.blockedRead > 0) || (!w.sto.gateWriteDone && w.sto.blockedWriteDone > 0)
 		w.sto.mu.Unlock()
 		if !pending {
 			return
@@ -1012,7 +1046,7 @@ func (w *VerifWorld) settle() error {
 		t := w.t
 		busy := false
 		w.sto.mu.Lock()
-		bo, bw, br := w.sto.blockedOpen, w.sto.blockedWrite, w.sto.blockedRead
+		bo, bw, br := w.sto.blockedOpen, w.sto.blockedWrite+w.sto.blockedWriteDone, w.sto.blockedRead
 		sops := w.sto.ops
 		w.sto.mu.Unlock()
 		// The fields below are read while the loop may already be inside its next handler. A round counts as
@@ -1507,6 +1541,25 @@ func (w *VerifWorld) Op(op string) string {
 			w.sto.failWrite = on
 		case "failopen":
 			w.sto.failOpen = on
+			w.sto.failOpenName = ""
+			if at, ok := m["at"]; ok {
+				// the at-th data file (padding files are never opened)
+				j := -1
+				for i := range w.flens {
+					if w.fpads[i] {
+						continue
+					}
+					j++
+					if j == verifAtoi(at, 0) {
+						w.sto.failOpenName = w.fileName(i)
+					}
+				}
+				if w.sto.failOpenName == "" {
+					w.sto.failOpenName = "\x00none" // beyond the last data file: no Open fails
+				}
+			}
+		case "writedone":
+			w.sto.gateWriteDone = on
 		}
 		w.sto.release.Broadcast()
 		w.sto.mu.Unlock()
@@ -2010,6 +2063,7 @@ func (w *VerifWorld) crashCheck(m map[string]string) string {
 		}
 	}
 	sto.truth = w.sto.truth
+	sto.lastWrite = w.sto.lastWrite
 	cfg := w.sess.config
 	cfg.Database = dbPath
 	cfg.CustomStorage = sto
@@ -2079,6 +2133,7 @@ func (w *VerifWorld) reloadCheck() string {
 	}
 	sto := w.sto.clone()
 	sto.truth = w.sto.truth
+	sto.lastWrite = w.sto.lastWrite
 	cfg := w.sess.config
 	cfg.Database = dbPath
 	cfg.CustomStorage = sto
